@@ -30,7 +30,7 @@ SUPERS = {
     "odd6": [[1, 0, 1], [0, 2, 0], [-1, 0, 2]],
     "neg2": [[1, 0, 0], [0, -1, 0], [0, 0, 2]],
 }
-CRYSTALS = ("fcc", "hcp", "b2", "fccint", "tet2")
+CRYSTALS = ("fcc", "hcp", "b2", "fccint", "intfirst", "tet2")
 DIALECTS = ("plain", "cart", "selective", "names", "scaled", "wrapped", "jitter", "trim")
 
 
@@ -44,6 +44,10 @@ def make_crystal(name):
     if name == "fccint":
         fcc = crystal.Crystal.FCC(1.3, "Ni")
         return crystal.Crystal(fcc.lattice, [[np.zeros(3)], [np.array([0.5, 0.5, 0.5])]], ["Ni", "C"]), (1,)
+    if name == "intfirst":
+        # the interstitial sublattice is chemistry index 0 (host is index 1)
+        fcc = crystal.Crystal.FCC(1.3, "Ni")
+        return crystal.Crystal(fcc.lattice, [[np.array([0.5, 0.5, 0.5])], [np.zeros(3)]], ["C", "Ni"]), (0,)
     if name == "tet2":
         return crystal.Crystal(np.diag([1.0, 1.0, 1.5]),
                                [[np.zeros(3), np.array([0.5, 0.5, 0.3])]], ["T"]), ()
@@ -614,7 +618,11 @@ class Engine(object):
         c = rng.choice(CRYSTALS)
         s = rng.choice(sorted(SUPERS))
         ns = rng.choice((0, 1, 1, 2, 2))
-        inter = [1] if (c == "fccint" and rng.random() < 0.7) else []
+        inter = []
+        if c == "fccint" and rng.random() < 0.7:
+            inter = [1]
+        if c == "intfirst" and rng.random() < 0.7:
+            inter = [0]
         return {"crystal": c, "super": s, "Nsolute": ns, "interstitial": inter,
                 "class": "{}/{}/s{}{}".format(c, s, ns, "i" if inter else "")}
 
